@@ -31,7 +31,12 @@ TReset == /\ Ev.op = "reset"
           /\ node' = <<>> /\ table' = <<>>
           /\ last' = Outcome(Req("init", <<>>, 0, ""), "ok", 0)
 
-TCall == /\ Ev.op \notin {"init", "reset"}
+\* C05: re-reading an entity returned earlier gives what it gave then
+TObserved == /\ Ev.op = "observe"
+             /\ Ev.a[1] \in (NConst + 1)..NN /\ N(Ev.a[1]) = Ev.o
+             /\ UNCHANGED uvars
+
+TCall == /\ Ev.op \notin {"init", "reset", "observe"}
          /\ LET r == Req(Ev.op, Ev.a, Ev.q, Ev.w) IN
             IF Ev.op \in LooseOps /\ Ev.out = "ok" /\ Ev.r <= NN /\ Resolve(r).kind = "fresh"
             THEN /\ N(Ev.r) = Resolve(r).rec /\ Ev.o = Resolve(r).rec
@@ -43,7 +48,7 @@ TCall == /\ Ev.op \notin {"init", "reset"}
                  /\ (Ev.out = "ok" /\ Ev.op \notin TruthOps) => NP(Ev.r) = Ev.o
 
 TNext == /\ l <= Len(T)
-         /\ (TConsts \/ TReset \/ TCall)
+         /\ (TConsts \/ TReset \/ TObserved \/ TCall)
          /\ l' = l + 1
 
 TSpec == TInit /\ [][TNext]_tvars
